@@ -512,6 +512,7 @@ class Renderer:
         self.holes: Dict[str, str] = {}   # canon -> placeholder
         self.roots: set = set()
         self.uses: Dict[Tuple[str, str], tuple] = {}
+        self.filter_ctx: Tuple[str, ...] = ()
         self.opaque: List[str] = []
         self.notes: List[str] = []
         self.guards: Tuple = ()
@@ -630,7 +631,16 @@ class Renderer:
             self.bind_target(n.target, val, scope, assign=True)
             return []
         if isinstance(n, nodes.FilterBlock):
-            segs = self.body(n.body, Scope(scope))
+            saved_ctx = self.filter_ctx
+            names, cur = [], n.filter
+            while cur is not None:
+                names.append(cur.name)
+                cur = cur.node
+            self.filter_ctx = saved_ctx + tuple(names)
+            try:
+                segs = self.body(n.body, Scope(scope))
+            finally:
+                self.filter_ctx = saved_ctx
             v = self.apply_filter_chain(n.filter, Segs(segs), scope)
             return self.emit(v, n)
         if isinstance(n, nodes.Block):
@@ -1300,7 +1310,7 @@ class Renderer:
         if name in ("first", "last"):
             k = (self.canon_val(value), name)
             if k not in self.uses:
-                self.uses[k] = (self.term_val(value), self.cur(), getattr(f, "lineno", 0), self.guards)
+                self.uses[k] = (self.term_val(value), self.cur(), getattr(f, "lineno", 0), self.guards, self.filter_ctx)
         return Sym(f"{self.canon_val(value)}|{name}({self.canon_args(args, kwargs)})",
                    ("filter", self.term_val(value), name, [self.term_val(a) for a in args],
                     {k: self.term_val(v) for k, v in kwargs.items()}))
@@ -1356,7 +1366,7 @@ class Renderer:
         if isinstance(v, Sym):
             k = (v.canon, kind)
             if k not in self.uses:
-                self.uses[k] = (v.term, self.cur(), line, self.guards)
+                self.uses[k] = (v.term, self.cur(), line, self.guards, self.filter_ctx)
 
     def placeholder(self, canon: str) -> str:
         ph = self.holes.get(canon)
